@@ -196,13 +196,14 @@ def _shape(rwmod):
 
 
 def _bb_task(task):
-    path, R, W, P, label, budget = task
+    path, R, W, P, label, budget, lines = task
     try:
-        r = blackbox.explore(path, R, W, P, budget_s=budget)
+        r = blackbox.explore(path, R, W, P, budget_s=budget, lines=lines)
     except MachineryError as e:
         return {"label": label, "machinery": str(e)}
     except Exception as e:      # the private copy cannot be loaded / constructed under the lock factory
-        return {"label": label, "unloadable": "%s: %s" % (type(e).__name__, e), "mix": "%dR+%dW x %d" % (R, W, P), "R": R, "W": W}
+        return {"label": label, "unloadable": "%s: %s" % (type(e).__name__, e), "R": R, "W": W,
+                "mix": "%dR+%dW x %d%s" % (R, W, P, " [line level]" if lines else "")}
     r["label"] = label
     r["uncontrolled"] = sorted(r["uncontrolled"])
     return r
@@ -211,6 +212,12 @@ def _bb_task(task):
 BB_SELFTEST = {     # label: (mutant of the real source, mix, verdict TLC must reach)
     "selftest: writer does not take no_writers": (("        self.__no_writers.acquire()\n", ""), (1, 1, 1), "mutex"),
     "selftest: reader keeps readers_queue": (("        self.__readers_queue.release()\n", ""), (2, 1, 1), "deadlock"),
+    # the light switch releases its mutex before it tests the counter (RWLockFine.tla: BROKEN_RELEASE, refuted by TLC): only
+    # visible when threads are pre-empted BETWEEN lock operations - the line-level exploration must find it
+    "selftest [line level]: switch tests its counter after releasing the mutex": (
+        ("        self.__counter -= 1\n        if self.__counter == 0:\n            lock.release()\n        self.__mutex.release()\n",
+         "        self.__counter -= 1\n        self.__mutex.release()\n        if self.__counter == 0:\n            lock.release()\n"),
+        (2, 0, 1), "exception"),
 }
 
 
@@ -226,7 +233,16 @@ def _blackbox(rep, tier, wd, rwmod, why):
     if thorough:
         mixes += [(2, 2, 1), (2, 1, 3)]
     budget = 900.0 if thorough else 240.0
-    tasks = [(path, R, W, P, "real", budget) for (R, W, P) in mixes]
+    tasks = [(path, R, W, P, "real", budget, False) for (R, W, P) in mixes]
+    # line level: the threads are also pre-empted before every source line of the lock module that reads or writes shared
+    # state (races on counters / flags between two lock operations).  Small mixes always, the larger ones when the lock is
+    # not the one of RWLock.tla (walk impossible or mismatched) and in the thorough tier.
+    lmixes = [(2, 0, 1), (0, 2, 1), (1, 1, 2)]
+    if why is not None or thorough:
+        lmixes += [(2, 1, 1), (1, 2, 1)]
+    if thorough:
+        lmixes += [(2, 1, 2)]
+    tasks += [(path, R, W, P, "real", budget, True) for (R, W, P) in lmixes]
     src = open(path).read()
     st_skipped = []
     for i, (label, ((a, b), (R, W, P), want)) in enumerate(BB_SELFTEST.items()):
@@ -236,7 +252,7 @@ def _blackbox(rep, tier, wd, rwmod, why):
         pth = os.path.join(wd, "rwlock_bb_mutant_%d.py" % i)
         with open(pth, "w") as f:
             f.write(src.replace(a, b))
-        tasks.append((pth, R, W, P, label, 120.0))
+        tasks.append((pth, R, W, P, label, 120.0, "[line level]" in label))
     outs = _pmap(_bb_task, tasks, 1, "black-box exploration of the lock")
     evs, tid, meta, summary, fallback = [], 0, {}, {}, []
     for o in outs:
@@ -246,6 +262,8 @@ def _blackbox(rep, tier, wd, rwmod, why):
             if o["label"] != "real":
                 raise MachineryError("black-box self-test could not be run: %s" % (o.get("unloadable") or o["uncontrolled"]))
             # something the controlled scheduler cannot drive: real pre-emptive threads, bounded waits (randomised)
+            if "[line level]" in o["mix"]:
+                continue                # (the fallback has no finer granularity: the primitive-level entry of the mix covers it)
             r = blackbox.real_thread_runs(rwmod, o["R"], o["W"], 1, 1500 if thorough else 250, seed=hash(o["mix"]) & 0xffff)
             r["label"] = "real"
             r["uncontrolled"] = [o.get("unloadable") or ", ".join(o["uncontrolled"])]
@@ -288,7 +306,7 @@ def _blackbox(rep, tier, wd, rwmod, why):
         else:
             what = x.get("_detail", "")
         rep.violation("C20:rwlock-" + clause,
-                      "real RWLock, %s, after the schedule (thread ids, one primitive operation each) %s: %s (%d such observation(s))"
+                      "real RWLock, %s, after the schedule (thread ids, one scheduling point each) %s: %s (%d such observation(s))"
                       % (x["mix"], x["_schedule"], what, len(xs)), x)
     if not found and not rep.violations:
         # self-tests of the machinery: only judged when the run is otherwise clean
@@ -306,6 +324,11 @@ def _blackbox(rep, tier, wd, rwmod, why):
                       else "differs: %s; refinement walk replaced by black-box exploration" % why),
         "blackbox": {"mixes": real, "selftests": {k: v for k, v in summary.items() if k != "real"}, "selftests_not_applicable": st_skipped,
                      "real_thread_fallback_for": fallback,
+                     "granularity": "operations on synchronisation primitives; in the mixes marked [line level] also every source line of "
+                                    "the lock module that reads or writes shared state (all threads under sys.settrace).  The statement-"
+                                    "level model RWLockFine.tla refines RWLock.tla; its BROKEN_RELEASE variant (counter tested after the "
+                                    "switch mutex is released) is refuted by TLC, and the same change of the real code is a self-test of "
+                                    "the line-level exploration",
                      "judged": "every distinct observable step (who holds the lock before/after), every deadlock state, every "
                                "exception, reader overlap: by TLC against RWLockAbs (Trace_RWLockAbs)"}}
     n = len([x for x in evs if meta.get(x["tid"], ("",))[0] == "real"])
@@ -1344,6 +1367,18 @@ def _inductive(rep, tier, wd):
             bad = [st for st in res["steps"] if st.get("outcome") not in (None, "NoError") and not st["name"].startswith("selftest")]
             rep.violation("C20:rwlock-inductive-%s" % (bad[0]["name"] if bad else "step"),
                           "the inductive invariant of the lock model is refuted by Apalache (R=%d W=%d)" % (R, W), {"steps": res["steps"]})
+    # the lazy-table model: one run covers every table length 1..K and both lock variants (N and LOCKED are symbolic constants)
+    K = 32 if tier == "quick" else 128
+    lt = apalache.check_lazytable_inductive(os.path.join(wd, "apalache_lt"), K, timeout=900, binding=(tier != "quick"))
+    if not lt.get("refuted_selftest") and not rep.violations:
+        raise MachineryError("Apalache self-test: a deviating LazyTable variant was not refuted")
+    rep.cov["parts"]["LazyTableInd (Apalache) N<=%d" % K] = {
+        "kind": "inductive invariant of the lazy-table model for every table length up to K (any number of steps, readers and interruptions)",
+        "ok": lt["ok"], "steps": [{k: v for k, v in st.items() if k in ("name", "rc", "seconds", "cpu_s", "outcome", "states")} for st in lt["steps"]]}
+    if not lt["ok"]:
+        bad = [st for st in lt["steps"] if st.get("outcome") not in (None, "NoError") and not st["name"].startswith("selftest")]
+        rep.violation("C20:lazytable-inductive-%s" % (bad[0]["name"] if bad else "step"),
+                      "the inductive invariant of the lazy-table model is refuted by Apalache (N <= %d)" % K, {"steps": lt["steps"]})
 
 
 def run(tier):
